@@ -52,12 +52,33 @@ def make_case(zone, tr, rng, n=None):
     return {"zone": zone, "start": base, "vs": vals}
 
 
+def make_repeated_case(zone, tr, rng):
+    """local hours around a fall-back transition as a wall clock shows them: the repeated hour is listed twice (an input
+    wrapped in SourceHourlyValues, as users give it)"""
+    t, before, after = tr
+    if not (after < before and (before - after) == 3600 and (t + after) % 3600 == 0):
+        return None
+    amb = t + after                      # local wall-clock time of the repeated hour
+    ks = [amb - 7200, amb - 3600, amb, amb, amb + 3600, amb + 7200][rng.choice([0, 1]):]
+    return {"zone": zone, "start": ks[0], "ks_local": ks, "vs": [round(rng.uniform(0.5, 90), 2) for _ in ks]}
+
+
+def local_epochs(case):
+    return case["ks_local"] if "ks_local" in case else [case["start"] + 3600 * i for i in range(len(case["vs"]))]
+
+
 def run_real(case):
     try:
         with watchdog(30):
             idx = pd.date_range(start=datetime.utcfromtimestamp(case["start"]), periods=len(case["vs"]), freq="h")
+            if "ks_local" in case:
+                idx = pd.DatetimeIndex([datetime.utcfromtimestamp(k) for k in case["ks_local"]])
             df = pd.DataFrame({"value": pint_pandas.PintArray(np.array(case["vs"], dtype=float), dtype=u.dimensionless)}, index=idx)
-            h = ExplainableHourlyQuantities(df, "local")
+            if "ks_local" in case:
+                from efootprint.abstract_modeling_classes.source_objects import SourceHourlyValues
+                h = SourceHourlyValues(df, label="local")
+            else:
+                h = ExplainableHourlyQuantities(df, "local")
             r = h.convert_to_utc(SourceObject(pytz.timezone(case["zone"])))
             c = canon(r)
             return "ok", c
@@ -205,6 +226,9 @@ def run_pair(case):
 
 def lean_request(case):
     lo, hi = case["start"], case["start"] + 3600 * len(case["vs"])
+    if "ks_local" in case:
+        return {"cmd": "tz", "zone": leanio.zone_json(case["zone"], lo - 86400 * 3, hi + 86400 * 3),
+                "s": {"ks": case["ks_local"], "vs": [rat_str(v) for v in case["vs"]]}}
     return {"cmd": "tz", "zone": leanio.zone_json(case["zone"], lo - 86400 * 3, hi + 86400 * 3),
             "s": {"k0": case["start"], "vs": [rat_str(v) for v in case["vs"]]}}
 
@@ -222,8 +246,8 @@ def oracle(case, st, c):
     out = dict(zip(ks, vs))
     expected = {}
     ambiguous_or_missing = False
-    for i, v in enumerate(case["vs"]):
-        naive = datetime.utcfromtimestamp(case["start"] + 3600 * i)
+    for k_loc, v in zip(local_epochs(case), case["vs"]):
+        naive = datetime.utcfromtimestamp(k_loc)
         try:
             aware = tz.localize(naive, is_dst=None)
             k = calendar.timegm(aware.utctimetuple())
@@ -249,7 +273,7 @@ def run_shard(args):
     answers = run_lean([lean_request(c) for c in cases])
     out["system_path"] = 0
     for k, c in enumerate(cases):
-        if k % 3 == 0 and all(v >= 0 for v in c["vs"]) and any(v > 0 for v in c["vs"]):
+        if k % 3 == 0 and "ks_local" not in c and all(v >= 0 for v in c["vs"]) and any(v > 0 for v in c["vs"]):
             st2, r2 = run_real_system(c)
             out["system_path"] += 1
             st1, r1 = reals[k]
